@@ -348,3 +348,28 @@ func (e *Env) SemiValid(t *rapid.T) *transaction.Transaction {
 	e.Past = append(e.Past, txn)
 	return txn
 }
+
+// FanOut draws a call that makes a contract look up several ids at once (chainstate.GetItemsByIDs reads them
+// concurrently): an allocation request naming 2..6 blobber ids of which most do not exist, so that which of the failing
+// lookups is reported is up to the contract, not to the scheduler.
+func (e *Env) FanOut(t *rapid.T) *transaction.Transaction {
+	h := e.H
+	ws := e.Wallets()
+	from := ws[rapid.IntRange(0, len(ws)-1).Draw(t, "from")]
+	k := rapid.IntRange(2, 6).Draw(t, "ids")
+	ids, tickets := make([]string, k), make([]string, k)
+	for i := range ids {
+		ids[i] = encryption.Hash(fmt.Sprintf("fan-%d", rapid.IntRange(0, 9).Draw(t, "id")))
+	}
+	data := rapid.IntRange(1, k-1).Draw(t, "data")
+	in := map[string]interface{}{
+		"data_shards": data, "parity_shards": k - data, "size": 1 << 30, "owner_id": from.ID, "owner_public_key": from.PublicKey,
+		"blobbers": ids, "blobber_auth_tickets": tickets,
+		"read_price_range":  map[string]uint64{"min": 0, "max": 7e10},
+		"write_price_range": map[string]uint64{"min": 0, "max": 7e10},
+	}
+	txn := h.Call(from, sim.StorageSC, "new_allocation_request", in, currency.Coin(rapid.SampledFrom([]uint64{1e10, 1e11, 0}).Draw(t, "lock")), fee(t))
+	e.note("fanout/new_allocation_request")
+	e.Past = append(e.Past, txn)
+	return txn
+}
